@@ -511,6 +511,25 @@ async fn run_scenario(sc: Value, run: std::path::PathBuf, panics: std::sync::Arc
                     react(&mut peers, &t, &info_hash).await;
                 }
             }
+            "await_announces" => {
+                // event driven: wait (in virtual time) until the tracker transport has seen `count` announces,
+                // whatever the client's retry delays are; the given peer keeps talking so that it stays alive
+                let want = step["count"].as_u64().unwrap() as usize;
+                let cap = step["cap_ms"].as_u64().unwrap_or(4_200_000);
+                let mut waited = 0u64;
+                while http::urls().len() < want && waited < cap {
+                    tokio::time::sleep(Duration::from_millis(500)).await;
+                    waited += 500;
+                    if waited % 30_000 == 0 && peers[pi].stream.is_some() {
+                        let f = json!({"k": "Interested"});
+                        let enc = encode_frame(&f, &t, &info_hash, &peers[pi].id);
+                        emit("Send", format!("\"peer\":\"{}\",\"f\":{}", peers[pi].label, f));
+                        push(&mut peers[pi], &enc);
+                    }
+                    react(&mut peers, &t, &info_hash).await;
+                }
+                emit("Awaited", format!("\"announces\":{},\"waited_ms\":{}", http::urls().len(), waited));
+            }
             "rates" => {
                 let g = |k: &str| step[k].as_u64().map(|x| x as u32);
                 rdest::verif::set_rate_override(&peers[pi].addr, Some((g("dl"), g("ul"))));
